@@ -296,7 +296,7 @@ func applyDefect(r *rand.Rand, c *gen.PI) (Defect, bool) {
 		insertStmt(r, c, gen.Stmt{K: "call", Fn: core.Pick(r, []string{"frobnicate", "balance", "meta", "set_meta"}), Args: []gen.Expr{*gen.Acc("a"), *gen.Asset("USD")}})
 		d.Allowed = []string{"unknown-name"}
 	case "unknown-function-origin":
-		c.Prog.Vars = append(c.Prog.Vars, gen.VarDecl{Type: "monetary", Name: "zz_unk", Fn: core.Pick(r, []string{"nofn", "set_tx_meta", "balances"}), Args: []gen.Expr{*gen.Acc("a"), *gen.Asset("USD")}})
+		c.Prog.Vars = append(c.Prog.Vars, gen.VarDecl{Type: core.Pick(r, []string{"monetary", "account", "asset", "number", "portion", "string"}), Name: "zz_unk", Fn: core.Pick(r, []string{"nofn", "set_tx_meta", "balances"}), Args: []gen.Expr{*gen.Acc("a"), *gen.Asset("USD")}})
 		d.Allowed = []string{"unknown-name"}
 	case "bad-arity":
 		switch r.IntN(4) {
@@ -311,6 +311,47 @@ func applyDefect(r *rand.Rand, c *gen.PI) (Defect, bool) {
 		}
 		d.Allowed = []string{"wrong-arity"}
 	case "wrong-type-expression":
+		// a variable of another type, declared on the spot
+		wrongVar := func(types ...string) *gen.Expr {
+			t := core.Pick(r, types)
+			name := "zz_wt_" + t
+			c.Prog.Vars = append(c.Prog.Vars, gen.VarDecl{Type: t, Name: name})
+			c.In.Vars[name] = map[string]string{"account": "a", "asset": "USD", "number": "7", "monetary": "USD 7", "portion": "1/2", "string": "s"}[t]
+			return gen.Var(name)
+		}
+		switch r.IntN(4) {
+		case 0:
+			// an allotment whose portion is a variable of another type (top level: always evaluated)
+			ss := stmtsOf(c, func(s *gen.Stmt) bool { return s.K == "send" })
+			if len(ss) == 0 {
+				return d, false
+			}
+			s := &c.Prog.Stmts[ss[r.IntN(len(ss))]]
+			head := gen.Allot{K: "var", S: wrongVar("monetary", "number", "account", "asset", "string").S}
+			if r.IntN(2) == 0 && !s.All {
+				s.Src = &gen.Src{K: "allot", Items: []gen.SrcItem{{A: head, From: gen.Src{K: "acc", E: gen.Acc("world")}}, {A: gen.Allot{K: "rem"}, From: gen.Src{K: "acc", E: gen.Acc("world")}}}}
+			} else {
+				s.Dst = &gen.Dst{K: "allot", Items: []gen.DstItem{{A: head, To: gen.KoD{D: &gen.Dst{K: "acc", E: gen.Acc("a")}}}, {A: gen.Allot{K: "rem"}, To: gen.KoD{Kept: true}}}}
+			}
+			d.Allowed = []string{"wrong-type"}
+			return d, true
+		case 1:
+			sl := exprSlots(c, "amt")
+			if len(sl) == 0 {
+				return d, false
+			}
+			sl[r.IntN(len(sl))].set(wrongVar("account", "asset", "number", "portion", "string"))
+			d.Allowed = []string{"wrong-type"}
+			return d, true
+		case 2:
+			sl := exprSlots(c, "acc")
+			if len(sl) == 0 {
+				return d, false
+			}
+			sl[r.IntN(len(sl))].set(wrongVar("monetary", "asset", "number", "portion", "string"))
+			d.Allowed = []string{"wrong-type"}
+			return d, true
+		}
 		if r.IntN(2) == 0 {
 			sl := exprSlots(c, "amt")
 			if len(sl) == 0 {
